@@ -1,5 +1,6 @@
 (* Data types of the model: the fixed instantiation of the crate's [Types]
-   (LogId = (term, index), Vote = (term, voted_for), LogPayload = UserData = Vec<u8>). *)
+   (LogId = (term, index), Vote = (term, voted_for) with the partial order of a Raft vote,
+   LogPayload = UserData = Vec<u8>). *)
 From Coq Require Import List NArith Bool.
 From Coq.Strings Require Import Byte.
 From RaftLog Require Import Base.Bytes.
@@ -32,6 +33,19 @@ Definition opair_cmp (a b : option (N * N)) : comparison :=
   end.
 Definition opair_ltb a b := match opair_cmp a b with Lt => true | _ => false end.
 Definition opair_leb a b := match opair_cmp a b with Gt => false | _ => true end.
+
+(* The vote is only PartialOrd in the crate. The instantiation used here has the partial
+   order of a Raft vote: a higher term is greater, the same term and the same candidate
+   are equal, the same term and different candidates are INCOMPARABLE.
+   [ovote_accepts cur v] is the crate's test [Some(v) >= cur] (RaftLogState::check_vote):
+   true iff partial_cmp is Greater or Equal; None is below everything. *)
+Definition vote_geb (v c : vote) : bool :=
+  N.ltb (fst c) (fst v) || (N.eqb (fst v) (fst c) && N.eqb (snd v) (snd c)).
+Definition ovote_accepts (cur : option vote) (v : vote) : bool :=
+  match cur with
+  | None => true
+  | Some c => vote_geb v c
+  end.
 
 Record rstate := mkRState {
   r_vote : option vote;
